@@ -253,8 +253,8 @@ def handlers : List (String × Handler) := [
     let strs := fun (k : String) => do
       let a ← getArr j k
       a.toList.mapM (fun (x : Json) => x.getStr?)
-    let r := imageCoordinateSystem ⟨← strs "present", ← strs "first_item"⟩
-    pure (okJson (match r with | some .slide => Json.str "slide" | some .patient => Json.str "patient" | none => Json.null))),
+    let r := imageCoordinateSystem ⟨← strs "present", ← strs "first_item", ← strs "empty"⟩
+    pure (exceptToJson (fun (c : Option Coord) => match c with | some .slide => Json.str "slide" | some .patient => Json.str "patient" | none => Json.null) r)),
   ("forImages", fun j => do
     let dsF ← imageDsOf (← j.getObjVal? "ds_f")
     let dsT ← imageDsOf (← j.getObjVal? "ds_t")
